@@ -623,8 +623,8 @@ var subAlias = runlog.Register(&runlog.Sub[aliasCase]{
 		"After every step: the generic dump, IsDict/IsArray and CountField of the root and of EVERY pooled config equal the model (frame condition over all addresses), library and model agree on success/failure and on the result of Remove, and the step's address, one fixed address through the root and one through a pooled handle are read through every getter, Has and Child by all equivalent routes (checkRead of the main sub-check). Path/Parent are not read (C15, D14). " +
 		"Non-trivial: a write or removal changed a node that is stored at two or more addresses of the root at that moment. Distinct: hash of the whole case.",
 	Journal: true,
-	Gen: genAliasCase,
-	Run: runAlias,
+	Gen:     genAliasCase,
+	Run:     runAlias,
 })
 
 func TestAliasHistories(t *testing.T) { subAlias.Check(t, 8000, 600000) }
